@@ -11,19 +11,19 @@
 //! output = `kind n=<len> k=<chunks> | M=<M>:<res>:ret=<max retained>:use=<max usage|->:heap=<max live heap growth>:out=<bytes out> …`
 //!   res: ok | mem@<call> | other@<call> | PANIC-new | panic@<call>   (call k = `end`)
 //! oracle (appended as ` ||ORACLE:C10:<site> …`, first violation only):
-//!   F5-prealloc-exceeds-max   constructor panics (debug_assert) because prealloc > M
-//!   retained-exceeds-max      bytes_in − bytes_out > M after a successful write (prealloc ≤ M)
+//!   constructor-panic         the constructor panics (was finding F5 for prealloc > M; repaired in /repo 6823fd9)
+//!   retained-exceeds-max      bytes_in − bytes_out > M after a successful write
 //!   text-decoder-held-uncharged   same, but the retained bytes are exactly the incomplete UTF-8
 //!                             sequence at the end of the input so far (≤ 3 bytes, kept by the
 //!                             text decoder of a text-capturing configuration and never charged)
-//!   usage-exceeds-max         accounted usage > M after a successful call (prealloc ≤ M)
+//!   usage-exceeds-max         accounted usage > M after a successful call
 //!   usage-below-retained      accounted usage < retained bytes after a successful write
 //!   heap-growth-exceeds-max   after a successful write the live heap (counting allocator) has grown by
 //!                             more than M + 16 KiB since the rewriter was constructed: memory that
 //!                             depends on the input and is not charged to the limiter
 //!   heap-growth-without-retained-input   same, and the growth is more than 64 × the retained input
 //!                             (memory kept for open elements, not for buffered input)
-//!   panic                     a call panicked (other than F5)
+//!   panic                     a call panicked
 //!   not-monotone              a larger limit stops earlier / differently than a smaller one
 //!   output-differs            two fully successful runs produced different output
 //!   not-deterministic         the same case run twice stopped differently / produced different output
@@ -252,15 +252,11 @@ fn run_one(kind: &str, max: usize, prealloc: usize, chunks: &[&[u8]]) -> Option<
         Ok(None) => return None,
         Err(_) => {
             res.stop = Stop::PanicNew;
-            res.violation = Some(if prealloc > max {
-                format!("F5-prealloc-exceeds-max constructor panics with prealloc={prealloc} > max={max}")
-            } else {
-                format!("panic constructor panics with prealloc={prealloc} <= max={max}")
-            });
+            res.violation =
+                Some(format!("constructor-panic constructor panics with prealloc={prealloc} max={max}"));
             return Some(res);
         }
     };
-    let in_hyp = prealloc <= max;
     let mut bytes_in = 0usize;
     let mut seen: Vec<u8> = Vec::with_capacity(total);
     let heap_base = LIVE.load(Ordering::Relaxed);
@@ -268,7 +264,7 @@ fn run_one(kind: &str, max: usize, prealloc: usize, chunks: &[&[u8]]) -> Option<
         if let Some(l) = &limiter {
             let u = l.verif_current_usage();
             res.max_usage = Some(res.max_usage.unwrap_or(0).max(u));
-            if in_hyp && u > max && res.violation.is_none() {
+            if u > max && res.violation.is_none() {
                 res.violation = Some(format!("usage-exceeds-max call#{call} usage={u} max={max}"));
             }
             Some(u)
@@ -299,21 +295,26 @@ fn run_one(kind: &str, max: usize, prealloc: usize, chunks: &[&[u8]]) -> Option<
             Ok(Ok(())) => {
                 let retained = bytes_in - out.borrow().len().min(bytes_in);
                 res.max_retained = res.max_retained.max(retained);
-                if in_hyp && retained > max && res.violation.is_none() {
+                if retained > max && res.violation.is_none() {
                     let site = if retained == incomplete_utf8_suffix(&seen) {
                         "text-decoder-held-uncharged"
                     } else {
                         "retained-exceeds-max"
                     };
+                    let at = if site == "text-decoder-held-uncharged" {
+                        " site=rewritable_units/text_decoder.rs:TextDecoder.pending_text_streaming_decoder(held bytes of an incomplete character, never charged)"
+                    } else {
+                        ""
+                    };
                     res.violation = Some(format!(
-                        "{site} write#{i} in={bytes_in} out={} max={max} usage={}",
+                        "{site} kind={kind} write#{i} in={bytes_in} out={} retained={retained} max={max} usage={}{at}",
                         out.borrow().len(),
                         limiter.as_ref().map_or("-".to_string(), |l| l.verif_current_usage().to_string())
                     ));
                 }
                 let heap = LIVE.load(Ordering::Relaxed).saturating_sub(heap_base);
                 res.max_heap = res.max_heap.max(heap);
-                if in_hyp && heap > max.saturating_add(HEAP_SLACK) && res.violation.is_none() {
+                if heap > max.saturating_add(HEAP_SLACK) && res.violation.is_none() {
                     // growth that the buffered input cannot explain (e.g. owned element names in
                     // the open-element stack) vs. growth proportional to the buffered input
                     // (e.g. the lexer's attribute outlines of an unterminated tag)
@@ -322,8 +323,13 @@ fn run_one(kind: &str, max: usize, prealloc: usize, chunks: &[&[u8]]) -> Option<
                     } else {
                         "heap-growth-exceeds-max"
                     };
+                    let at = if site == "heap-growth-without-retained-input" {
+                        "selectors_vm/stack.rs:StackItem.local_name+open_name_counts(owned element names of open elements; LimitedVec charges size_of::<StackItem>() only)"
+                    } else {
+                        "parser/lexer/mod.rs:AttributeBuffer(attribute outlines of the buffered tag) and other per-input allocations proportional to the retained input"
+                    };
                     res.violation = Some(format!(
-                        "{site} write#{i} live heap grew by {heap} bytes since construction, max={max}, retained input={retained}"
+                        "{site} kind={kind} write#{i} live heap grew by {heap} bytes since construction, max={max}, retained input={retained} site={at}"
                     ));
                 }
                 if let Some(u) = note_usage(&mut res, i) {
@@ -380,7 +386,7 @@ pub fn run(line: &str) -> String {
         // determinism: the same configuration and writes give the same results and output
         if let Some(r2) = run_one(kind, m, prealloc, &chunks) {
             if (r2.stop != r.stop || r2.out != r.out || r2.max_usage != r.max_usage)
-                && oracle.as_ref().is_none_or(|o| o.starts_with("F5-"))
+                && oracle.is_none()
             {
                 oracle = Some(format!("not-deterministic M={m}: {} vs {}", r.stop.show(), r2.stop.show()));
             }
@@ -393,15 +399,8 @@ pub fn run(line: &str) -> String {
             r.max_heap,
             r.out.len()
         ));
-        // a finding other than the known F5 takes precedence in the (single) oracle slot
-        match (&oracle, &r.violation) {
-            (None, Some(v)) => oracle = Some(v.clone()),
-            (Some(o), Some(v)) if o.starts_with("F5-") && !v.starts_with("F5-") => oracle = Some(v.clone()),
-            _ => {}
-        }
-        if r.stop == Stop::PanicNew {
-            // outside the hypothesis prealloc <= M: not part of the monotonicity check
-            continue;
+        if oracle.is_none() {
+            oracle = r.violation.clone();
         }
         if let Some((pm, p)) = &prev {
             let bad = match &p.stop {
@@ -409,9 +408,11 @@ pub fn run(line: &str) -> String {
                 Stop::Ok | Stop::Other(_) | Stop::Panic(_) => r.stop != p.stop,
                 _ => r.stop.progress(ncalls) < p.stop.progress(ncalls),
             };
-            if bad && oracle.as_ref().is_none_or(|o| o.starts_with("F5-")) {
+            if bad && oracle.is_none() {
+                // (also across the preallocation size: Arena::new clamps it to the limit, /repo 6823fd9)
+                let site = "not-monotone";
                 oracle = Some(format!(
-                    "not-monotone M={pm}:{} but M={m}:{}",
+                    "{site} M={pm}:{} but M={m}:{} prealloc={prealloc}",
                     p.stop.show(),
                     r.stop.show()
                 ));
@@ -419,7 +420,7 @@ pub fn run(line: &str) -> String {
             if p.stop == Stop::Ok
                 && r.stop == Stop::Ok
                 && p.out != r.out
-                && oracle.as_ref().is_none_or(|o| o.starts_with("F5-"))
+                && oracle.is_none()
             {
                 oracle = Some(format!("output-differs M={pm} vs M={m}"));
             }
